@@ -62,12 +62,14 @@ def jobs(tier, seed):
     return out
 
 
-def run_life(gw, fl, seed, script, rt, answer=0.1, hold=0.0):
+def run_life(gw, fl, seed, script, rt, answer=0.1, hold=0.0, stop_on_loss=False):
     from .. import lifetimes as L
 
     if fl == "threaded":
         return L.run_threaded(gw, seed, script, rt=rt, answer=answer, hold=hold)
-    return L.run_async(gw, seed, script, rt=rt, answer=answer, hold=hold)
+    ev, meta = L.run_async(gw, seed, script, rt=rt, answer=answer, hold=hold, stop_on_loss=stop_on_loss)
+    meta["stop_on_loss"] = stop_on_loss
+    return ev, meta
 
 
 def judge(res, ev, meta, extra=()):
@@ -95,7 +97,7 @@ def judge(res, ev, meta, extra=()):
         res.count("lifetimes_with_loss_and_reconnect")
         res.count(f"loss_and_reconnect[{meta['kind']}/{meta['flavour']}]")
     case = {"gw": meta["kind"], "flavour": meta["flavour"], "script": meta["script"], "rt": meta["rt"], "seed": meta["seed"],
-            "answer": meta.get("answer"), "hold": meta.get("hold", 0.0)}
+            "answer": meta.get("answer"), "hold": meta.get("hold", 0.0), "stop_on_loss": meta.get("stop_on_loss", False)}
     for sig, what in V:
         res.violation(sig, what + f"  [script {meta['script']} rt={meta['rt']} seed={meta['seed']}]", dict(case, log=[list(map(str, e)) for e in ev if e[1] != "SLEEP"][:80]))
     return V
@@ -225,7 +227,11 @@ def run(job):
             for k, script in enumerate(job["seqs"]):
                 rt = RTS[(k + job["i"]) % 3]
                 seed = job["seed"] * 1000 + k % 7
-                ev, meta = run_life(job["gw"], job["flavour"], seed, script, rt)
+                # asyncio: in every fourth lifetime the application stops the gateway from its loss callback
+                sol = job["flavour"] == "asyncio" and k % 4 == 3
+                ev, meta = run_life(job["gw"], job["flavour"], seed, script, rt, stop_on_loss=sol)
+                if sol and any(e[1] == "LOST" and e[3] is not None for e in ev):
+                    res.count("lifetimes_stopped_from_the_loss_callback")
                 judge(res, ev, meta)
                 if k == 0 and job["i"] == 0:
                     res.sample({"gw": job["gw"], "flavour": job["flavour"], "script": script, "rt": rt,
@@ -279,7 +285,8 @@ def replay(case):
     if case.get("real"):
         run_real_job({"gw": case["gw"], "flavour": case["flavour"], "script": case["script"], "rt": case["rt"], "hold": case.get("hold", 0.0)}, res)
         return res
-    ev, meta = run_life(case["gw"], case["flavour"], case["seed"], case["script"], case["rt"], answer=case.get("answer", 0.1), hold=case.get("hold", 0.0))
+    ev, meta = run_life(case["gw"], case["flavour"], case["seed"], case["script"], case["rt"], answer=case.get("answer", 0.1), hold=case.get("hold", 0.0),
+                        stop_on_loss=case.get("stop_on_loss", False))
     extra = []
     if case.get("hold"):
         extra = L.check_watchdog(ev, meta, "answering" if case.get("answer") is not None and "silence" not in case["script"] else "silent")
@@ -312,7 +319,8 @@ def finish(agg, tier):
                 "again once the faults stop, nothing after stop().",
         "exhaustive": True,
         "floors": [("lifetimes", c.get("lifetimes", 0), 1500), ("lifetimes_with_loss_and_reconnect", c.get("lifetimes_with_loss_and_reconnect", 0), 500),
-                   ("watchdog_answering_links", c.get("watchdog_answering_links", 0), 18), ("watchdog_silent_links", c.get("watchdog_silent_links", 0), 12)]
+                   ("watchdog_answering_links", c.get("watchdog_answering_links", 0), 18), ("watchdog_silent_links", c.get("watchdog_silent_links", 0), 12),
+                   ("lifetimes_stopped_from_the_loss_callback", c.get("lifetimes_stopped_from_the_loss_callback", 0), 40)]
                   + [(f"loss_and_reconnect[{k}/{fl}]", c.get(f"loss_and_reconnect[{k}/{fl}]", 0), 40) for (k, fl) in ALPHA]
                   + ([] if c.get("real_device_unavailable") else
                      [(f"real_lifetimes[{k}/{fl}]", c.get(f"real_lifetimes[{k}/{fl}]", 0), 5) for (k, fl) in ALPHA]
